@@ -47,6 +47,7 @@ where
 {
     let matches = clap::App::new("rrss")
         .about("Rockstar programming language tools")
+        .setting(clap::AppSettings::SubcommandRequired)
         .subcommands([
             clap::App::new("lint").arg(clap::Arg::new("file").required(true).takes_value(false)),
             clap::App::new("parse").arg(clap::Arg::new("file").required(true).takes_value(false)),
